@@ -186,6 +186,9 @@ pub struct Stats {
     pub known_c10_fw: u64,
     pub drop_faults: u64,
     pub trace_ticks: u64,
+    /// tracked allocations that were handed a just-released address (recycle mode of the seam)
+    #[serde(default)]
+    pub addr_reuses: u64,
     /// coverage cells: name -> hits
     pub cells: BTreeMap<String, u64>,
     /// non-triviality flags raised by this run (by property antecedent, DESIGN 2.12)
@@ -246,6 +249,8 @@ pub struct World {
     pub addr2id: BTreeMap<usize, Id>,
     /// tokens that are parts of an object with several tokens
     pub tok2obj: BTreeMap<Id, Id>,
+    /// completed builder objects whose elements are zero-sized tokens: object id -> element count
+    pub z_pending: BTreeMap<Id, u64>,
     /// last abstract collector state hash per arena (for transition counting)
     pub last_state: Vec<u64>,
     /// known findings met in this run: (property, what)
@@ -329,6 +334,7 @@ impl World {
             drop_cursor: 0,
             addr2id: BTreeMap::new(),
             tok2obj: BTreeMap::new(),
+            z_pending: BTreeMap::new(),
             last_state: vec![],
             known: BTreeSet::new(),
             aborted_foreign: false,
@@ -618,6 +624,20 @@ impl World {
             }
         }
         self.sigmix(0xF0 + sigf.min(3));
+        // zero-sized tokens have no identity: conservation of their counts. Never more destructed
+        // than constructed; whatever is constructed and not yet destructed lives in a completed
+        // object whose block is still allocated.
+        if !self.z_pending.is_empty() || tok::z_counts().0 != 0 {
+            let (made, dropped) = tok::z_counts();
+            if dropped > made {
+                self.violate_with("C04.twice", &["C18.parts"], format!("{dropped} zero-sized slice elements have been destructed but only {made} were ever constructed"));
+            } else {
+                let held: u64 = self.z_pending.iter().filter(|(i, _)| self.sh.objs.get(i).is_some_and(|o| !o.released)).map(|(_, n)| *n).sum();
+                if made - dropped > held {
+                    self.violate("C04.never", format!("{} zero-sized slice elements were constructed and never destructed although only {held} of them are in objects that still exist", made - dropped));
+                }
+            }
+        }
     }
 
     pub fn tok_owner(&self, t: Id) -> Option<Id> {
